@@ -505,6 +505,15 @@ func (b *GRPCBroker) knock(id uint32) error {
 		if msg.Knock.Error != "" {
 			return fmt.Errorf("failed to knock for id %d: %s", id, msg.Knock.Error)
 		}
+
+		// The ack has been consumed: let timeoutWait drop the pending entry now
+		// instead of five seconds from now. A lingering entry is picked up by
+		// the next knock for this ID (a reconnect, a second connection), and if
+		// the old timer then deletes it before the new ack arrives, the ack is
+		// parked in a fresh entry nobody waits on and the knock times out.
+		p.once.Do(func() {
+			close(p.doneCh)
+		})
 	case <-time.After(5 * time.Second):
 		return fmt.Errorf("timeout waiting for multiplexing knock handshake on id %d", id)
 	}
@@ -664,6 +673,9 @@ func (m *GRPCBroker) timeoutWait(id uint32, p *gRPCBrokerPending) {
 	m.Lock()
 	defer m.Unlock()
 
-	// Delete the stream so no one else can grab it
-	delete(m.clientStreams, id)
+	// Delete the stream so no one else can grab it, unless the entry has
+	// already been replaced by a newer one for the same ID.
+	if m.clientStreams[id] == p {
+		delete(m.clientStreams, id)
+	}
 }
